@@ -45,7 +45,7 @@ PROBES = ["invivo_pipeline_reads_checked", "invivo_restored_items_checked", "inv
           "absent_read", "fault_write_enospc", "fault_write_torn", "fault_read_eio", "fault_reported",
           "read_after_fault_ok", "restart_after_fault", "dict_restore", "xprocess_restart", "numpy_integer_key", "two_failed_writes_in_one_op",
           "invivo_history_run_ok", "invivo_history_ws_plain", "invivo_history_ws_symlink", "invivo_history_ws_symlink_parent", "invivo_history_ws_symlink_sub",
-          "failed_save", "failed_resave_of_active_item", "mixed_kind_column_refused", "invivo_debug_run"]
+          "failed_save", "failed_resave_of_active_item", "mixed_kind_column_refused", "invivo_debug_run", "resave_same_object_edited_in_place"]
 # the same check again, smaller, in interpreters started with assertions stripped (python -O / PYTHONOPTIMIZE=1)
 ENV_VARIANTS = [{"name": "python-O", "env": {"PYTHONOPTIMIZE": "1"}, "runs": {'quick': 900, 'thorough': 9000}}]
 TIERS = {
@@ -148,6 +148,8 @@ def generate(rng, k):
             op = {"op": "save", "id": i, "tok": tok, "desc": fam.gen(rng, tok, size)}
             if rng.random() < 0.1:
                 op["npkey"] = True       # the id arrives as a numpy integer (ids read from table rows are)
+            if i in saved and rng.random() < 0.2:
+                op["reuse"] = True       # the caller edits the object it saved last time IN PLACE and saves that same object again
             if i not in saved:
                 saved.append(i)
             last_id = i
@@ -577,6 +579,10 @@ def execute(trace):
                 # a loader whose index restore failed numbers its bundles from 0 again: the file just damaged may be one the
                 # durable index still references for an id the model lost track of
                 M["disk_at_risk"] |= M["ghost"]
+                if M.get("numbering_reset"):
+                    # ... or for ANY id saved before that restart: the durable index still maps it to the bundle number that was
+                    # just re-used and damaged
+                    M["disk_at_risk"] |= set(M["hist"])
             M["resaved_over_export"] -= M["active"]
             M["active"] = set()
             M["index_fresh"] = False
@@ -616,6 +622,7 @@ def execute(trace):
         return None
 
     loader = fam.make(run_dir, k["icap"], k["bcap"])
+    last_obj = {}        # id -> the object the caller handed to save() last time
     try:
         for step, op in enumerate(trace["ops"]):
             kind = op["op"]
@@ -631,7 +638,17 @@ def execute(trace):
                 expected = cjson(pure_roundtrip(fam, key, fam.build(key, op["desc"])))
                 toks = tokens(canon(fam.build(key, op["desc"])))
                 was_exported = i in M["exported"] and i not in M["active"]
-                _, out, err = sut(lambda: fam.save(loader, key, fam.build(key, op["desc"])))
+                obj_ = fam.build(key, op["desc"])
+                prev_ = last_obj.get(i)
+                if op.get("reuse") and isinstance(prev_, list) and isinstance(obj_, list) and len(prev_) == len(obj_) and prev_ \
+                        and all(isinstance(a_, dict) and isinstance(b_, dict) for a_, b_ in zip(prev_, obj_)):
+                    for a_, b_ in zip(prev_, obj_):
+                        a_.clear()
+                        a_.update(b_)
+                    obj_ = prev_
+                    hit("resave_same_object_edited_in_place")
+                last_obj[i] = obj_
+                _, out, err = sut(lambda: fam.save(loader, key, obj_))
                 fired, nw, nr, arrow_err = diskseam.end_op()
                 if err is not None and not fired:
                     violation = {"step": step, "cls": "save_failed", "detail": {"op": _short(op), "error": f"{type(err).__name__}: {str(err)[:300]}"}}
@@ -734,6 +751,8 @@ def execute(trace):
                     violation = {"step": step, "cls": "restore_failed", "detail": {"op": op, "error": f"{type(err).__name__}: {str(err)[:300]}"}}
                     break
                 index_lost = err is not None or injected_read
+                if index_lost:
+                    M["numbering_reset"] = True      # the fresh loader starts numbering its bundle files from 0 again
                 hit("restart_clean" if clean else "restart_unclean")
                 if M["faults_done"]:
                     hit("restart_after_fault")
